@@ -16,7 +16,7 @@ import tracecheck
 from engine import Violation, CaseResult
 
 PROP = "C06"
-FAMILIES = ("tiny_many", "full_channel", "degenerate", "all_ties", "mixed", "early_finisher")
+FAMILIES = ("tiny_many", "full_channel", "degenerate", "all_ties", "mixed", "early_finisher", "very_many")
 
 
 def gen_case(rng):
@@ -24,6 +24,8 @@ def gen_case(rng):
     bsz = rng.choice((256, 512, 1024, 4096, 65536))
     if fam == "tiny_many":
         srcs = merge.gen_sources(rng, rng.randint(3, 6), bsz, max_msgs=3, first_line_max=bsz // 2)
+    elif fam == "very_many":
+        srcs = merge.gen_sources(rng, rng.randint(8, 20), bsz, max_msgs=3, first_line_max=bsz // 2)
     elif fam == "full_channel":
         srcs = merge.gen_sources(rng, rng.randint(1, 3), bsz, max_msgs=rng.choice((8, 14, 30)),
                                  allow_degenerate=False, first_line_max=bsz // 2)
@@ -72,6 +74,14 @@ def _all_same_instant(rng, n, bsz, t):
 
 
 def run_case(seed, i, tier):
+    if i % 8 == 7:
+        # workers of every kind (evtx, journal, accounting, text) under K schedules; scenario replays go through c01's format
+        import c01
+        cr = c01.run_mixed_case(seed, i, tier, K=(3 if tier == "quick" else 8), compare_schedules=True)
+        for v in cr.violations:
+            if v.replay is not None:
+                v.replay["via"] = "c01"
+        return cr
     rng = core.rng_for(seed, PROP, i)
     K = 4 if tier == "quick" else 12
     fam, bsz, srcs, opts = gen_case(rng)
@@ -127,10 +137,16 @@ def run_case(seed, i, tier):
 
 
 def replay(rp):
+    if rp.get("via") == "c01" or rp.get("kind") == "scenario":
+        import c01
+        return c01.replay(rp)
     return mergecheck.replay(rp)
 
 
 def minimise(rp, cls):
+    if rp.get("via") == "c01" or rp.get("kind") == "scenario":
+        import c01
+        return c01.minimise(rp, cls)
     return mergecheck.minimise(rp, cls)
 
 
